@@ -134,6 +134,36 @@ def run(tier):
                 found = True
                 rep.finding("registry-destroy", "values changed after destroying the registry", {"kind": "line", "config": cfg, "line": l, "expected": b[:300], "observed": a[:300]})
         rep.note_cases(len(docs) * 3, set(C.sha(d)[:16] for d in docs), sample={"doc": docs[1][:120].decode("latin-1")})
+
+        # every lazily materialised buffer (decoded strings, digit strings cleaned of underscores) stays intact while others
+        # are materialised afterwards: dump element i, fetch all the others, dump element i again
+        scripts = []
+        for ndig in range(1, 34):
+            digs = b"".join(b"%d" % ((j * 7 + 1) % 10) for j in range(ndig))
+            us = b"_".join(digs[j:j + 3] for j in range(0, len(digs), 3)) if cfg in ("exp", "both") else digs
+            for num in (us + b"N", b"1" + us + b"0000000000000000000", us + b".5M"):
+                doc = b"[" + num + b" \"abc\\n\" " + num + b" \"" + b"x" * ndig + b"\\t\" 12345678901234567890123]"
+                ops = ["t:0.0", "sg:0.1", "t:0.2", "sg:0.3", "t:0.4", "t:0.0", "sg:0.1", "t:0.2", "sg:0.3", "h:0", "t:0.0", "t:0.2"]
+                scripts.append("Q r0=%s %s" % (C.hexs(doc), " ".join(ops)))
+        impl, model, diffs, crashes, mcr = K.correspond(cfg, scripts)
+        rep.count("lazy-buffers/" + cfg, len(scripts))
+        for idx, rc, err in crashes:
+            found = True
+            rep.finding("lazy-buffer/crash", "fetching lazily materialised buffers crashed", {"kind": "line", "config": cfg, "line": scripts[idx], "stderr": err[:3000]})
+        for i in diffs[:3]:
+            rep.broken_obligation("correspondence/lazy-buffers", "model %r vs code %r" % ((model[i] or "")[:300], (impl[i] or "")[:300]), False)
+        for i, a in enumerate(impl):
+            if a is None:
+                continue
+            t = a.split("\t")
+            if t[0] != "ok":
+                continue
+            o = t[1:]
+            if "NOTERM" in a or "UNSTABLE" in a or o[0] != o[5] or o[0] != o[10] or o[2] != o[7] or o[2] != o[11] or o[1] != o[6] or o[3] != o[8]:
+                found = True
+                rep.finding("lazy-buffer/changed", "a buffer handed out earlier changed (or lost its terminator) when another value was materialised",
+                            {"kind": "line", "config": cfg, "line": scripts[i], "observed": a[:1200]})
+        rep.note_cases(len(scripts), set(C.sha(x)[:16] for x in scripts))
     U.finish_proof(rep, lean, found)
 
 
